@@ -222,11 +222,17 @@ def hostile_inputs(ctx, c, enc, others, n, codec=None):
         elif p < .12:
             # count amplifiers: a valid prefix followed by a run of maximal fragment markers (PER/UPER) or a huge
             # quantity / length field (OER, BER)
-            cut = rng.randrange(0, len(enc) + 1)
+            cut = rng.choice([0, 0, 1, rng.randrange(0, len(enc) + 1)])
             k = rng.choice([3, 16, 200, 1000, 4000])
             filler = {'uper': b'\xc4', 'per': b'\xc4', 'oer': b'\x84\xff\xff\xff\xff', 'ber': b'\x30\x84\xff\xff\xff\xff',
                       'der': b'\x30\x84\xff\xff\xff\xff'}.get(codec, b'[')
-            d = (enc[:cut] + filler * k)[:4096] + bytes(rng.randrange(256) for _ in range(rng.choice([0, 1, 4])))
+            if codec == 'oer' and rng.random() < .6:
+                # a quantity field (length-of-quantity octet + quantity) announcing 2^24 .. 2^32 elements
+                q = rng.choice([b'\x04\x04\x00\x00\x00', b'\x04\x10\x00\x00\x00', b'\x03\xff\xff\xff', b'\x04\xff\xff\xff\xff',
+                                b'\x05\x01\x00\x00\x00\x00'])
+                d = enc[:cut] + q + bytes(rng.randrange(256) for _ in range(rng.choice([0, 3, 16, 200])))
+            else:
+                d = (enc[:cut] + filler * k)[:4096] + bytes(rng.randrange(256) for _ in range(rng.choice([0, 1, 4])))
         elif p < .7:
             d = CC.mutate_bytes(rng, enc, rng.choice(others) if others else None)
             if rng.random() < .3:
@@ -498,11 +504,19 @@ def run(ctx):
             ctx.violation('%s: decode of a %d-octet input did not finish within %.1f s' % (codec, len(d), jobs[jid]['deadline']), rep)
         elif r['out'][0] == 'memory':
             ctx.violation('%s: decode of a %d-octet input exhausted the address-space limit' % (codec, len(d)), rep)
+        elif r.get('rss_growth_kb', 0) > 65536 + 64 * len(d):
+            # more than 64 MiB (+ 64 KiB per input octet) of new peak memory for one decode
+            ctx.violation('%s: decode of a %d-octet input raised the peak memory of the process by %d MiB'
+                          % (codec, len(d), r['rss_growth_kb'] // 1024), rep)
+        ctx.extra['max_rss_growth_mib'] = max(ctx.extra.get('max_rss_growth_mib', 0), r.get('rss_growth_kb', 0) // 1024)
         key = (c.text, codec, c.tname, enc)
         if r['sentinel'] is not None:
             if key not in sentinel_expect:
                 spec = lib.compile_string(c.text, codec)
-                sentinel_expect[key] = repr(spec.decode(c.tname, enc))
+                try:
+                    sentinel_expect[key] = repr(spec.decode(c.tname, enc))
+                except Exception as e:  # noqa  (a value the library cannot read back is C01's subject: same text as the worker's)
+                    sentinel_expect[key] = 'EXC ' + lib.classify(e) + ' ' + str(e)[:80]
             if r['sentinel'] != sentinel_expect[key]:
                 ctx.violation('%s: after a hostile input the same specification decodes a valid message differently: %s'
                               % (codec, r['sentinel'][:120]), rep)
